@@ -1112,3 +1112,30 @@ def tu_net_lines(rng, count, maxnodes=60):
 TU_NET_CODES = {1: "malformed record", 430: "CMRtuTest failed on a network matrix", 431: "verdict not written although no stop flag is set",
                 432: "a network matrix (certified by its digraph) is reported not totally unimodular",
                 433: "a violating submatrix is returned for a network matrix"}
+
+
+def regular_cert_lines(rng, count, maxnodes=40):
+    """cases of the `regular_cert` api: graphic matrices of random multigraphs (and of 3-connected graphs) with the graph
+    as witness, half of them transposed (cographic, witness for the transpose); random parameter vectors without stop flags"""
+    import vlib
+    out = []
+    for i in range(count):
+        if i % 3 == 0:
+            nv, E = threeconn_graph(rng)
+            M, w = graph_instance(rng, nv, len(E), False, loops=False, edges=E)
+        else:
+            nv = 2 + rng.below(8) if i % 4 == 1 else 6 + rng.below(maxnodes - 5)
+            M, w = graph_instance(rng, nv, nv + rng.below(2 * nv), False)
+        if not M or not M[0]:
+            continue
+        tr = rng.below(2)
+        if tr:
+            M = [list(r) for r in zip(*M)]
+        c = rand_cfg(rng, algorithm=0, stopflags=False, wantSub=0)
+        out.append("%s %s %d %s" % (cfg_line(c), vlib.mat_line(M), tr, w))
+    return out
+
+
+REGULAR_CERT_CODES = {1: "malformed record", 440: "CMRregularTest failed on a (co)graphic matrix",
+                      441: "verdict not written although no stop flag is set",
+                      442: "a graphic / cographic matrix (certified by its graph) is reported not regular"}
